@@ -5,7 +5,10 @@ import (
 	"fmt"
 	"os"
 	"path/filepath"
+	"regexp"
+	"sort"
 	"strings"
+	"time"
 
 	"github.com/grafana/cog/internal/jennies/golang"
 	"github.com/grafana/cog/internal/jennies/python"
@@ -30,30 +33,41 @@ func argGenOpts(args map[string]string) GenOpts {
 	return o
 }
 
+// iterDefs yields the terms a stream works on: generated from (seed, from.., n) or read from
+// file=<path> (one Defs S-expression per line).
+func iterDefs(args map[string]string, f func(i int, d *Defs) error) error {
+	n := argInt(args, "n", 3)
+	seed := uint64(argInt(args, "seed", 1))
+	from := argInt(args, "from", 0)
+	o := argGenOpts(args)
+	if path, ok := args["file"]; ok {
+		for i, line := range readLines(path) {
+			d, err := parseDefsSexp(line)
+			if err != nil {
+				return fmt.Errorf("%s line %d: %w", path, i+1, err)
+			}
+			if err := f(i, d); err != nil {
+				return err
+			}
+		}
+		return nil
+	}
+	for i := from; i < from+n; i++ {
+		if err := f(i, genDefs(seed, i, o)); err != nil {
+			return err
+		}
+	}
+	return nil
+}
+
 func init() {
 	// src-probe: print generated terms, their three renderings and what the front-ends make of
 	// them (debugging aid for the renderers).
 	register("src-probe", func(args map[string]string, out *bufio.Writer) error {
-		n := argInt(args, "n", 3)
-		seed := uint64(argInt(args, "seed", 1))
-		from := argInt(args, "from", 0)
-		o := argGenOpts(args)
 		dir := labWorkDir("probe")
 		defer os.RemoveAll(dir)
 		degrade := argInt(args, "degrade", 1)
-		var fromFile []string
-		if f, ok := args["file"]; ok {
-			fromFile = readLines(f)
-			from, n = 0, len(fromFile)
-		}
-		for i := from; i < from+n; i++ {
-			d0 := genDefs(seed, i, o)
-			if fromFile != nil {
-				var err error
-				if d0, err = parseDefsSexp(fromFile[i]); err != nil {
-					return fmt.Errorf("%s line %d: %w", args["file"], i+1, err)
-				}
-			}
+		return iterDefs(args, func(i int, d0 *Defs) error {
 			fmt.Fprintf(out, "=== case %d\n%s\n", i, d0.sexp())
 			if err := d0.wf(); err != nil {
 				fmt.Fprintf(out, "WF-ERROR %v\n", err)
@@ -96,8 +110,8 @@ func init() {
 					fmt.Fprintf(out, "ok %s\n", f)
 				}
 			}
-		}
-		return nil
+			return nil
+		})
 	})
 }
 
@@ -119,4 +133,413 @@ func init() {
 		}
 		return writeFiles(args["out"], files)
 	})
+}
+
+func init() {
+	// src-refval: agreement of the document generator with the three reference validators
+	register("src-refval", func(args map[string]string, out *bufio.Writer) error {
+		if _, ok := args["n"]; !ok {
+			args["n"] = "20"
+		}
+		seed := uint64(argInt(args, "seed", 1))
+		ndocs := argInt(args, "docs", 20)
+		degrade := argInt(args, "degrade", 1)
+		verbose := argInt(args, "show", 3)
+		type cnt struct{ cases, compileFail, validOK, validRej, faultRej, faultAcc, noFault int }
+		counts := map[string]*cnt{}
+		shown := map[string]int{}
+		err := iterDefs(args, func(i int, d0 *Defs) error {
+			for _, f := range labFormats {
+				if only, ok := args["format"]; ok && only != f {
+					continue
+				}
+				c := counts[f]
+				if c == nil {
+					c = &cnt{}
+					counts[f] = c
+				}
+				pkg := fmt.Sprintf("c%d%s", i, labFormatSuffix[f])
+				d, _ := degradeDefs(d0, f, degrade)
+				ro := renderDefs(d, f, pkg)
+				if ro.Text == "" {
+					continue
+				}
+				c.cases++
+				rv, err := newRefValidator(f, ro.refText(), d.Root)
+				if err != nil {
+					c.compileFail++
+					fmt.Fprintf(out, "COMPILE-FAIL case=%d %s: %s\n%s\n", i, f, shortErr(err), ro.Text)
+					continue
+				}
+				r := newRng(seed*7919 + uint64(i)*31 + 5)
+				dg := newDocGen(d, r, defaultDocOpts())
+				for k := 0; k < ndocs; k++ {
+					doc := dg.validDoc()
+					if err := rv.validate(doc); err != nil {
+						c.validRej++
+						key := f + "/valid"
+						if shown[key] < verbose {
+							shown[key]++
+							fmt.Fprintf(out, "VALID-REJECTED case=%d %s doc=%s\n  err=%s\n  defs=%s\n", i, f, doc.json(), shortErr(err), d.sexp())
+						}
+					} else {
+						c.validOK++
+					}
+				}
+				for k := 0; k < ndocs; k++ {
+					fd, ok := dg.faultDoc(nil)
+					if !ok {
+						c.noFault++
+						continue
+					}
+					if err := rv.validate(fd.Doc); err == nil && f == "cue" && fd.CueMayAccept {
+						c.faultRej++ // a documented, legitimate difference of CUE
+					} else if err == nil {
+						c.faultAcc++
+						key := f + "/" + fd.Kind
+						if shown[key] < verbose {
+							shown[key]++
+							fmt.Fprintf(out, "FAULT-ACCEPTED case=%d %s kind=%s path=%s doc=%s\n  defs=%s\n", i, f, fd.Kind, fd.Path, fd.Doc.json(), d.sexp())
+						}
+					} else {
+						c.faultRej++
+					}
+				}
+			}
+			return nil
+		})
+		if err != nil {
+			return err
+		}
+		for _, f := range labFormats {
+			if c := counts[f]; c != nil {
+				fmt.Fprintf(out, "SUMMARY %s cases=%d compileFail=%d valid: accepted=%d rejected=%d  fault: rejected=%d accepted=%d nosite=%d\n",
+					f, c.cases, c.compileFail, c.validOK, c.validRej, c.faultRej, c.faultAcc, c.noFault)
+			}
+		}
+		return nil
+	})
+}
+
+// ---- lab-selftest and lab-c01-rows ----
+
+type labBatch struct {
+	lab   *Lab
+	cases []*LabCase
+	docs  map[string][]JV    // case ID → valid documents of the root object
+	fault map[string][]Fault // case ID → single-fault documents
+	hist  map[string]int     // construct histogram over the original terms
+	dhist map[string]int     // document variants drawn
+	t     map[string]time.Duration
+}
+
+// buildLabBatch: n generated terms × formats, ndocs valid (+ nfault fault) documents each.
+func buildLabBatch(args map[string]string, dirName string, withFaults bool) (*labBatch, error) {
+	if _, ok := args["n"]; !ok {
+		args["n"] = "24"
+	}
+	seed := uint64(argInt(args, "seed", 1))
+	ndocs := argInt(args, "docs", 40)
+	opts := defaultLabOpts()
+	opts.Degrade = argInt(args, "degrade", opts.Degrade)
+	opts.Keep = args["keep"] == "1"
+	opts.NoPython = args["python"] == "0"
+	opts.Builders = args["builders"] == "1"
+	opts.Converters = args["converters"] == "1"
+	if s, ok := args["oamapping"]; ok {
+		oaMappingStyle = s
+	}
+	lab, err := NewLab(labWorkDir(dirName), opts)
+	if err != nil {
+		return nil, err
+	}
+	b := &labBatch{lab: lab, docs: map[string][]JV{}, fault: map[string][]Fault{}, hist: map[string]int{}, dhist: map[string]int{}, t: map[string]time.Duration{}}
+	t0 := time.Now()
+	err = iterDefs(args, func(i int, d *Defs) error {
+		d.walkTags(func(t string) { b.hist[t]++ })
+		for _, f := range labFormats {
+			if only, ok := args["format"]; ok && only != f {
+				continue
+			}
+			c := lab.AddCase(d, f)
+			b.cases = append(b.cases, c)
+			if c.Defs == nil {
+				continue
+			}
+			dg := newDocGen(c.Defs, newRng(seed*7919+uint64(i)*31+5), defaultDocOpts())
+			for k := 0; k < ndocs; k++ {
+				b.docs[c.ID] = append(b.docs[c.ID], dg.validDoc())
+			}
+			if withFaults {
+				for k := 0; k < ndocs; k++ {
+					if fd, ok := dg.faultDoc(nil); ok {
+						b.fault[c.ID] = append(b.fault[c.ID], fd)
+					}
+				}
+			}
+			for k, v := range dg.tags {
+				b.dhist[k] += v
+			}
+		}
+		return nil
+	})
+	b.t["generate+docs"] = time.Since(t0)
+	if err != nil {
+		lab.Close()
+		return nil, err
+	}
+	t1 := time.Now()
+	if err := lab.Build(); err != nil {
+		lab.Close()
+		return nil, err
+	}
+	b.t["build"] = time.Since(t1)
+	return b, nil
+}
+
+func labSortedKeys(m map[string]int) []string {
+	ks := make([]string, 0, len(m))
+	for k := range m {
+		ks = append(ks, k)
+	}
+	sort.Strings(ks)
+	return ks
+}
+
+func init() {
+	register("lab-selftest", func(args map[string]string, out *bufio.Writer) error {
+		t0 := time.Now()
+		b, err := buildLabBatch(args, "selftest", true)
+		if err != nil {
+			return err
+		}
+		defer b.lab.Close()
+		type cnt struct{ cases, rendered, loaded, generated, compiled, pyImported, validOK, validRej, faultRej, faultAcc, refFail int }
+		cs := map[string]*cnt{}
+		failures := map[string][]string{}
+		fail := func(class, text string) {
+			if len(failures[class]) < argInt(args, "show", 2) {
+				failures[class] = append(failures[class], text)
+			}
+		}
+		var goReqs, pyReqs []LabReq
+		for _, c := range b.cases {
+			k := cs[c.Format]
+			if k == nil {
+				k = &cnt{}
+				cs[c.Format] = k
+			}
+			k.cases++
+			if c.Defs == nil {
+				continue
+			}
+			k.rendered++
+			if c.IRGoErr == "" && c.IRGo != nil {
+				k.loaded++
+			} else {
+				fail(c.Format+" load: "+labClassOf(c.IRGoErr), c.IRGoErr+"\n    src="+c.Defs.sexp())
+			}
+			if c.GenErr != "" {
+				if c.IRGoErr == "" {
+					fail(c.Format+" generate: "+labClassOf(c.GenErr), c.GenErr+"\n    src="+c.Defs.sexp())
+				}
+				continue
+			}
+			k.generated++
+			if c.GoOK {
+				k.compiled++
+			} else {
+				fail(c.Format+" go-compile: "+labClassOf(c.GoCompileErr), c.GoCompileErr+"\n    src="+c.Defs.sexp())
+			}
+			if c.PyOK {
+				k.pyImported++
+			} else if !b.lab.Opts.NoPython {
+				fail(c.Format+" py-import: "+labClassOf(c.PyImportErr), c.PyImportErr+"\n    src="+c.Defs.sexp())
+			}
+			rv, err := c.RefValidator("")
+			if err != nil {
+				k.refFail++
+				fail(c.Format+" refval-compile", shortErr(err)+"\n    src="+c.Defs.sexp())
+			} else {
+				for _, d := range b.docs[c.ID] {
+					if err := rv.validate(d); err != nil {
+						k.validRej++
+						fail(c.Format+" valid-doc-rejected", d.json()+" :: "+shortErr(err)+"\n    src="+c.Defs.sexp())
+					} else {
+						k.validOK++
+					}
+				}
+				for _, fd := range b.fault[c.ID] {
+					err := rv.validate(fd.Doc)
+					if err == nil && !(c.Format == "cue" && fd.CueMayAccept) {
+						k.faultAcc++
+						fail(c.Format+" fault-doc-accepted "+fd.Kind, fd.Path+" "+fd.Doc.json()+"\n    src="+c.Defs.sexp())
+					} else {
+						k.faultRej++
+					}
+				}
+			}
+			for _, d := range b.docs[c.ID] {
+				if c.GoOK {
+					goReqs = append(goReqs, LabReq{c.ID, c.Defs.Root, "dec", []string{d.json()}}, LabReq{c.ID, c.Defs.Root, "strict", []string{d.json()}})
+				}
+				if c.PyOK {
+					pyReqs = append(pyReqs, LabReq{c.ID, c.Defs.Root, "roundtrip", []string{d.json()}})
+				}
+			}
+		}
+		t1 := time.Now()
+		goRep := b.lab.GoCall(goReqs)
+		tg := time.Since(t1)
+		t2 := time.Now()
+		pyRep := b.lab.PyCall(pyReqs)
+		tp := time.Since(t2)
+		replyClass := func(reps []string) map[string]int {
+			m := map[string]int{}
+			for _, r := range reps {
+				m[strings.SplitN(r, " ", 2)[0]]++
+			}
+			return m
+		}
+		for _, f := range labFormats {
+			if k := cs[f]; k != nil {
+				fmt.Fprintf(out, "FORMAT %-10s cases=%d rendered=%d loaded=%d generated=%d go-compiled=%d py-imported=%d | refval: compile-fail=%d valid accepted=%d rejected=%d, fault rejected=%d accepted=%d\n",
+					f, k.cases, k.rendered, k.loaded, k.generated, k.compiled, k.pyImported, k.refFail, k.validOK, k.validRej, k.faultRej, k.faultAcc)
+			}
+		}
+		unsup := map[string]int{}
+		notes := map[string]int{}
+		degr := map[string]int{}
+		for _, c := range b.cases {
+			for _, u := range c.Unsupported {
+				unsup[c.Format+" "+u]++
+			}
+			for _, u := range c.Notes {
+				notes[c.Format+" "+u]++
+			}
+			for _, u := range c.Degraded {
+				degr[c.Format+" "+strings.SplitN(u, " x", 2)[0]]++
+			}
+		}
+		for _, k := range labSortedKeys(unsup) {
+			fmt.Fprintf(out, "UNSUPPORTED %s cases=%d\n", k, unsup[k])
+		}
+		for _, k := range labSortedKeys(degr) {
+			fmt.Fprintf(out, "DEGRADED %s cases=%d\n", k, degr[k])
+		}
+		for _, k := range labSortedKeys(notes) {
+			fmt.Fprintf(out, "LOSSY-NOTE %s cases=%d\n", k, notes[k])
+		}
+		fmt.Fprintf(out, "GO-REPLIES n=%d %v\n", len(goRep), replyClass(goRep))
+		fmt.Fprintf(out, "PY-REPLIES n=%d %v\n", len(pyRep), replyClass(pyRep))
+		hs := []string{}
+		for _, k := range labSortedKeys(b.hist) {
+			hs = append(hs, fmt.Sprintf("%s=%d", k, b.hist[k]))
+		}
+		fmt.Fprintf(out, "CONSTRUCTS %s\n", strings.Join(hs, " "))
+		hs = hs[:0]
+		for _, k := range labSortedKeys(b.dhist) {
+			hs = append(hs, fmt.Sprintf("%s=%d", k, b.dhist[k]))
+		}
+		fmt.Fprintf(out, "DOC-VARIANTS %s\n", strings.Join(hs, " "))
+		for _, l := range b.lab.BuildLog {
+			fmt.Fprintf(out, "BUILD %s\n", l)
+		}
+		for _, w := range b.lab.Warnings {
+			fmt.Fprintf(out, "WARNING %s\n", w)
+		}
+		fmt.Fprintf(out, "TIMING generate+docs=%.1fs build(write+go build+py import)=%.1fs [lab: %v] gocall=%.1fs pycall=%.1fs total=%.1fs\n",
+			b.t["generate+docs"].Seconds(), b.t["build"].Seconds(), fmtTimings(b.lab.Timings), tg.Seconds(), tp.Seconds(), time.Since(t0).Seconds())
+		classes := make([]string, 0, len(failures))
+		for k := range failures {
+			classes = append(classes, k)
+		}
+		sort.Strings(classes)
+		for _, k := range classes {
+			for _, f := range failures[k] {
+				fmt.Fprintf(out, "FAILURE [%s] %s\n", k, strings.ReplaceAll(f, "\t", " "))
+			}
+		}
+		return nil
+	})
+
+	// lab-c01-rows: <caseId> \t <format> \t <object> \t <doc json> \t <dec reply> \t <strict reply> \t <python roundtrip reply>
+	// preceded, per case, by a row: #case \t <caseId> \t <format> \t <status> \t <Src sexp>
+	register("lab-c01-rows", func(args map[string]string, out *bufio.Writer) error {
+		b, err := buildLabBatch(args, "c01rows", false)
+		if err != nil {
+			return err
+		}
+		defer b.lab.Close()
+		var goReqs, pyReqs []LabReq
+		for _, c := range b.cases {
+			if c.Defs == nil {
+				continue
+			}
+			for _, d := range b.docs[c.ID] {
+				goReqs = append(goReqs, LabReq{c.ID, c.Defs.Root, "dec", []string{d.json()}}, LabReq{c.ID, c.Defs.Root, "strict", []string{d.json()}})
+				pyReqs = append(pyReqs, LabReq{c.ID, c.Defs.Root, "roundtrip", []string{d.json()}})
+			}
+		}
+		goRep := b.lab.GoCall(goReqs)
+		pyRep := b.lab.PyCall(pyReqs)
+		gi, pi := 0, 0
+		for _, c := range b.cases {
+			status := "ok"
+			switch {
+			case c.Defs == nil:
+				status = "unsupported " + strings.Join(c.Unsupported, ",")
+			case c.GenErr != "":
+				status = "generr " + labOneLine(c.GenErr)
+			case !c.GoOK:
+				status = "gocompile " + labOneLine(c.GoCompileErr)
+			case !c.PyOK && !b.lab.Opts.NoPython:
+				status = "pyimport " + labOneLine(c.PyImportErr)
+			}
+			src := "-"
+			if c.Defs != nil {
+				src = c.Defs.sexp()
+			}
+			fmt.Fprintf(out, "#case\t%s\t%s\t%s\t%s\n", c.ID, c.Format, status, src)
+			if c.Defs == nil {
+				continue
+			}
+			for _, d := range b.docs[c.ID] {
+				fmt.Fprintf(out, "%s\t%s\t%s\t%s\t%s\t%s\t%s\n", c.ID, c.Format, c.Defs.Root, d.json(), goRep[gi], goRep[gi+1], pyRep[pi])
+				gi += 2
+				pi++
+			}
+		}
+		return nil
+	})
+}
+
+func fmtTimings(m map[string]time.Duration) string {
+	ks := make([]string, 0, len(m))
+	for k := range m {
+		ks = append(ks, k)
+	}
+	sort.Strings(ks)
+	parts := []string{}
+	for _, k := range ks {
+		parts = append(parts, fmt.Sprintf("%s=%.1fs", k, m[k].Seconds()))
+	}
+	return strings.Join(parts, " ")
+}
+
+var classNum = regexp.MustCompile(`[0-9]+`)
+var classCase = regexp.MustCompile(`c[0-9]+(js|oa|cue)`)
+
+// classOf reduces an error text to a class (first line, numbers and case ids masked).
+func labClassOf(s string) string {
+	s = labFirstLine(strings.TrimSpace(s))
+	if i := strings.Index(s, "\n"); i >= 0 {
+		s = s[:i]
+	}
+	s = classCase.ReplaceAllString(s, "cN")
+	s = classNum.ReplaceAllString(s, "N")
+	if len(s) > 160 {
+		s = s[:160]
+	}
+	return s
 }
